@@ -108,7 +108,12 @@ func (clnt *Clnt) Rpcnb(r *Req) error {
 	clnt.reqlast = r
 	clnt.Unlock()
 
-	clnt.reqout <- r
+	select {
+	case clnt.reqout <- r:
+	case <-clnt.done:
+		/* the connection failed after r was linked: the send goroutine is gone,
+		   and recv reports the error on r.Done like for every pending request */
+	}
 	return nil
 }
 
@@ -241,7 +246,8 @@ func (clnt *Clnt) recv() {
 	}
 
 closed:
-	clnt.done <- true
+	/* stops the send goroutine and releases callers waiting to hand over a request */
+	close(clnt.done)
 
 	/* send error to all pending requests */
 	clnt.Lock()
